@@ -340,11 +340,51 @@ let c02 op a =
        | Err _ -> "(err)" | Panic -> "(panic)" | OutOfFuel -> "(skip)")
   | _ -> "(unknown-op " ^ op ^ ")"
 
+
+(* ---------- C03 / C04 / C10 ---------- *)
+let vals_of (s : string) : val0 list = List.map val_of (items (parse_sx s))
+let c03 op a =
+  match op, a with
+  | "c03.wf", [e; ts; vs; b] ->
+      let env = env_of e and ts = tys_of ts and vs = vals_of vs in
+      (* typed encoding = annotate (strict) then encode; it needs at least as many values as types *)
+      let nts = List.length ts in
+      if List.length vs < nts then (if b = "err" then "(err)" else "(encoder-accepted-too-few-values)") else
+      let vs' = List.filteri (fun i _ -> i < nts) vs in
+      (match annotate_args true env vs' ts with
+       | None -> "(err)"
+       | Some expected ->
+         if b = "err" then "(ok-expected)" else
+         (match spec_decode_untyped_raw (unhex b) with
+          | Ok ((ew, tws), got) ->
+              if got <> expected then "(bad-values " ^ String.concat " " (List.map sx_of_val got) ^ ")"
+              else if List.length tws <> nts then "(bad-arg-count)"
+              else if List.for_all2 (fun tw t -> eq_dec (ew @ env) tw t) tws ts then "(ok)" else "(bad-types)"
+          | Err _ -> "(model-rejects-message)" | Panic -> "(panic)" | OutOfFuel -> "(skip)"))
+  | "c03.wf_untyped", [vs; b] ->
+      let vs = vals_of vs in
+      if b = "err" then "(err)" else
+      (match spec_decode_untyped_raw (unhex b) with
+       | Ok (_, got) -> if got = vs then "(ok)" else "(bad-values " ^ String.concat " " (List.map sx_of_val got) ^ ")"
+       | Err _ -> "(model-rejects-message)" | Panic -> "(panic)" | OutOfFuel -> "(skip)")
+  | "c10.annotate", [p; e; t; v] ->
+      (match annotate_top (p = "1") (env_of e) (val_of (parse_sx v)) (ty_of (parse_sx t)) with
+       | Some w -> "(ok " ^ sx_of_val w ^ ")" | None -> "(err)")
+  | "c04.sub_implies_coerce", [e; t; t2; v] ->
+      let env = env_of e and t = ty_of (parse_sx t) and t2 = ty_of (parse_sx t2) and v = val_of (parse_sx v) in
+      if sub_dec_fast env t t2 then
+        (match coerce (nat_of_int (4 * (int_of_n (N.of_nat (vsize v))) + 2 * List.length env + 40)) env v t t2 with
+         | Ok w -> if has_type env w t2 then "1" else "(coerced-value-ill-typed)"
+         | OutOfFuel -> "(skip)" | _ -> "(model: subtype but no coercion)")
+      else "0"
+  | _ -> "(unknown-op " ^ op ^ ")"
+
 let dispatch (op : string) (a : string list) : string =
   let base = if String.length op > 2 && String.sub op 0 2 = "m." then String.sub op 2 (String.length op - 2) else op in
   let prop = try String.sub base 0 (String.index base '.') with Not_found -> base in
   match prop with
   | "c02" -> c02 op a
+  | "c03" | "c04" | "c10" -> c03 op a
   | "c05" -> c05 op a
   | "c09" -> c09 op a
   | "c15" -> c15 op a
